@@ -8,9 +8,9 @@ import (
 
 // The resource universe of every run (DESIGN.md §4.1).
 var (
-	ResThing         = &Resource{Group: "ctl.example.com", Version: "v1", Plural: "things", Kind: "Thing", Namespaced: true, Status: true, Generation: true}
+	ResThing         = &Resource{Group: "ctl.example.com", Version: "v1", Plural: "things", Kind: "Thing", Namespaced: true, Status: true, Generation: true, Scale: true}
 	ResClusterThing  = &Resource{Group: "ctl.example.com", Version: "v1", Plural: "clusterthings", Kind: "ClusterThing", Namespaced: false, Status: true, Generation: true}
-	ResTarget        = &Resource{Group: "ctl.example.com", Version: "v1", Plural: "targets", Kind: "Target", Namespaced: true, Status: true, Generation: true}
+	ResTarget        = &Resource{Group: "ctl.example.com", Version: "v1", Plural: "targets", Kind: "Target", Namespaced: true, Status: true, Generation: true, Scale: true}
 	ResBareTarget    = &Resource{Group: "ctl.example.com", Version: "v1", Plural: "baretargets", Kind: "BareTarget", Namespaced: true, Status: false, Generation: true}
 	ResWidget        = &Resource{Group: "kids.example.com", Version: "v1", Plural: "widgets", Kind: "Widget", Namespaced: true, Status: true, Generation: true}
 	ResGadget        = &Resource{Group: "kids.example.com", Version: "v1beta1", Plural: "gadgets", Kind: "Gadget", Namespaced: true, Status: false, Generation: true}
